@@ -26,20 +26,33 @@ package keys_and_cert
 
 //@ spec func certLen(data []byte) int { return 3 + u16(data[385:387]) }
 
+// KacAccepts: exactly the inputs ReadKeysAndCert accepts; KacExtent: what it consumes.
+//@ spec func KacAccepts(data []byte) bool {
+//@   return len(data) >= 387 && certLen(data) <= len(data)-384 && ((data[384] == 0) || (data[384] == 5 && u16(data[385:387]) >= 4 && typesSupported(u16(data[387:389]), u16(data[389:391]))))
+//@ }
+//@ spec func KacExtent(data []byte) int { return 384 + certLen(data) }
+//@ spec func WireSigType(data []byte) int {
+//@   if data[384] == 5 { return u16(data[387:389]) }
+//@   return 0
+//@ }
+//@ spec func WireCryptoType(data []byte) int {
+//@   if data[384] == 5 { return u16(data[389:391]) }
+//@   return 0
+//@ }
+
 //@ spec func typesSupported(sig int, crypto int) bool {
 //@   return (crypto == 0 || (4 <= crypto && crypto <= 7)) && (sig == 0 || sig == 1 || sig == 2 || sig == 7 || sig == 8 || sig == 11)
 //@ }
 
 //@ contract ReadKeysAndCert(data []byte) (k *KeysAndCert, remainder []byte, err error)
 //@   ensures @C08 fresh(k.Padding) && fresh(k.KeyCertificate.SpkType) && fresh(k.KeyCertificate.CpkType) && fresh(certificate.CertPayload(&k.KeyCertificate.Certificate)) && fresh(certificate.CertKind(&k.KeyCertificate.Certificate)) && fresh(certificate.CertLenBytes(&k.KeyCertificate.Certificate))
-//@   ensures @C08 k != nil ==> fresh(k.ReceivingPublic.Bytes()) && fresh(k.SigningPublic.Bytes())
-//@   ensures @C01 @C02 @C03 (err == nil) == (len(data) >= 387 && certLen(data) <= len(data)-384 && ((data[384] == 0) || (data[384] == 5 && u16(data[385:387]) >= 4 && typesSupported(u16(data[387:389]), u16(data[389:391])))))
-//@   ensures @C03 err == nil ==> suffix(remainder, data, 384+certLen(data))
+//@   ensures @C08 fresh(k.ReceivingPublic.Bytes()) && fresh(k.SigningPublic.Bytes())
+//@   ensures @C01 @C02 @C03 (err == nil) == KacAccepts(data)
+//@   ensures @C03 err == nil ==> suffix(remainder, data, KacExtent(data))
 //@   ensures @C01 @C10 err == nil ==> KacInv(k)
 //@   ensures @C01 err == nil ==> seqeq(KacWire(k), data[:384+certLen(data)])
 //@   ensures @C02 @C10 err == nil ==> seqeq(k.ReceivingPublic.Bytes(), data[:CS(k)]) && seqeq(k.SigningPublic.Bytes(), data[384-SS(k):384]) && seqeq(k.Padding, data[CS(k):384-SS(k)])
-//@   ensures @C02 @C10 err == nil && data[384] == 5 ==> key_certificate.SigType(k.KeyCertificate) == u16(data[387:389]) && key_certificate.CryptoType(k.KeyCertificate) == u16(data[389:391])
-//@   ensures @C02 err == nil && data[384] == 0 ==> key_certificate.SigType(k.KeyCertificate) == 0 && key_certificate.CryptoType(k.KeyCertificate) == 0
+//@   ensures @C02 @C10 err == nil ==> key_certificate.SigType(k.KeyCertificate) == WireSigType(data) && key_certificate.CryptoType(k.KeyCertificate) == WireCryptoType(data)
 //@   ensures err != nil ==> k == nil
 //@   modifies nothing
 
